@@ -83,6 +83,10 @@ C01_CORE = [
     ({"A": ["K", "M"], "B": ["K"], "C": ["M"], "Z": ["M"]}, "Z[m] = take(A[k, m], B[k], C[m], 2)", None, ["K", "M"]),
     ({"A": [], "B": ["M"], "Z": ["M"]}, "Z[m] = A[] * B[m]", None, None),
     ({"A": ["J", "K", "M"], "B": ["J", "K"], "Z": ["M"]}, "Z[m] = A[j, k, m] * B[j, k]", {"A": ["M", "J", "K"]}, ["J", "M", "K"]),
+    # take with scalar operands, selected or not (scalars are non-zero)
+    ({"A": ["K", "M"], "B": ["K"], "Z": ["M"]}, "Z[m] = take(A[k, m], s, B[k], 0)", None, ["K", "M"]),
+    ({"A": ["M"], "Z": ["M"]}, "Z[m] = take(s, A[m], 1)", None, None),
+    ({"A": ["M"], "Z": ["M"]}, "Z[m] = take(A[m], s, 1)", None, None),
     # take as a summand (known finding KF-TAKE-SUMMAND: kept in the core so that the finding is re-derived on every run)
     ({"A": ["N"], "B": ["M"], "C": ["M"], "D": ["N"], "Z": []}, "Z[] = A[n] * B[m] + take(C[m], D[n], 1)", None, ["N", "M"]),
 ]
@@ -113,7 +117,7 @@ def gen_c01(rng):
         nf = rng.choice([2, 3]) if single_take else rng.choice([1, 2, 2, 3])
         facs = []
         for f in range(nf):
-            if rng.random() < 0.12 and f > 0 and not single_take:
+            if rng.random() < (0.3 if single_take else 0.12) and f > 0:
                 facs.append(["var", "s" + str(t) + str(f)])
             else:
                 facs.append(["tensor", None, []])
@@ -534,6 +538,10 @@ def conv_systematic(tier):
                 y = mk_yaml(decl, [expr], part={"O": {"Q": [pstr], "W": ["follow(Q)"]}}, lo={"O": lo})
                 cf = [{"Q": Q, "S": S, "W": a * (Q - 1) + b * (S - 1) + 1} for Q, S in ([(4, 2), (5, 3)] if q else [(3, 2), (4, 2), (5, 3)])]
                 out.append({"yaml": y, "configs": cf, "family": fam, "key": y, "coeffs": (a, b), "lo": lo})
+    # two levels on the index-math rank (known finding KF-CONV-2LEVEL; kept so that the finding is re-derived on every run)
+    for lo in (["Q2", "Q1", "W0", "Q0"], ["Q2", "Q1", "S", "Q0"], ["S", "Q2", "Q1", "Q0"]):
+        y = mk_yaml({"I": ["W"], "F": ["S"], "O": ["Q"]}, ["O[q] = I[q + s] * F[s]"], part={"O": {"Q": ["uniform_shape(4)", "uniform_shape(2)"], "W": ["follow(Q)"]}}, lo={"O": lo})
+        out.append({"yaml": y, "configs": [{"Q": 8, "S": 2, "W": 9}], "family": "conv-us2", "key": y, "coeffs": (1, 1), "lo": lo, "cap": 30})
     return out
 
 
@@ -549,3 +557,31 @@ def occ_core():
             y = mk_yaml(decl, [expr], part={"Z": {"K": st}}, lo={"Z": lo})
             out.append({"yaml": y, "configs": [{"K": 5, "M": 2, "N": 2}], "family": "occupancy-core", "key": y, "cap": 40})
     return out
+
+
+F3BASES = [
+    ("C[i, r] = T[i, j, k] * B[j, k, r]", {"T": "ijk", "B": "jkr", "C": "ir"}, "T"),
+    ("Z[m, n] = A[j, k, m] * B[j, k, n]", {"A": "jkm", "B": "jkn", "Z": "mn"}, "A"),
+    ("Z[m] = A[j, k, m] * B[k, j]", {"A": "jkm", "B": "kj", "Z": "m"}, "A"),
+]
+
+
+def gen_flat3(rng):
+    """flatten() of three ranks of one tensor while another tensor holds two of them (it is then looked up by coordinate over two ranks
+    at once), optionally followed by occupancy partitioning of the flattened rank."""
+    expr, decl, T = rng.choice(F3BASES)
+    out = expr.split("[")[0]
+    vs = sorted(set("".join(decl.values())))
+    tup = [c.upper() for c in decl[T]]
+    if rng.random() < 0.3:
+        rng.shuffle(tup)
+    fname = "".join(tup)
+    part = {"(%s)" % ", ".join(tup): ["flatten()"]}
+    occ = rng.choice([0, 0, 1])
+    if occ:
+        part[fname] = ["uniform_occupancy(%s.%d)" % (T, rng.choice([2, 3]))]
+    flevels = [fname + str(i) for i in range(occ, -1, -1)] if occ else [fname]
+    others = [v.upper() for v in vs if v.upper() not in tup]
+    lo = interleave(rng, [flevels] + [[o] for o in others])
+    y = mk_yaml(updecl(decl), [expr], part={out: part}, lo={out: lo})
+    return {"yaml": y, "configs": [{v.upper(): 2 for v in vs}], "family": "flatten3", "key": y, "cap": 30}
